@@ -132,6 +132,11 @@ impl StreamMaps {
         } = value_descriptor;
 
         #[cfg(aquavm_verif)]
+        crate::verif_hooks::emit(crate::verif_hooks::Event::StreamUse {
+            name: name.to_string(),
+            air_pos: position.into(),
+        });
+        #[cfg(aquavm_verif)]
         {
             use crate::execution_step::value_types::TracePosOperate;
             crate::verif_hooks::emit(crate::verif_hooks::Event::StreamAdd {
@@ -163,6 +168,12 @@ impl StreamMaps {
 
     pub(crate) fn meet_scope_start(&mut self, name: impl Into<String>, span: Span) {
         let name = name.into();
+        #[cfg(aquavm_verif)]
+        crate::verif_hooks::emit(crate::verif_hooks::Event::ScopeSpan {
+            name: name.clone(),
+            left: span.left.into(),
+            right: span.right.into(),
+        });
         #[cfg(aquavm_verif)]
         crate::verif_hooks::emit(crate::verif_hooks::Event::ScopeStart { name: name.clone() });
 
